@@ -338,6 +338,8 @@ func RunExpr(ctx *Task, node *ast.Node) *errchain.PlError {
 
 	// TODO
 	case ast.TypeAttrExpr:
+		// yields no value
+		ctx.Regs.Reset()
 		return nil
 
 	case ast.TypeBoolLiteral:
@@ -1052,6 +1054,9 @@ func changeListOrMapValue(ctx *Task, obj any, index []*ast.Node, val V) *errchai
 }
 
 func RunCallExpr(ctx *Task, expr *ast.CallExpr) *errchain.PlError {
+	// a call yields only what the function returns, never the value of an
+	// earlier expression left in the registers
+	ctx.Regs.Reset()
 	if funcCall, ok := ctx.GetFn(expr.Name); ok {
 		if err := funcCall(ctx, expr); err != nil {
 			return err
